@@ -288,6 +288,9 @@ func main() {
 		}
 		t0 := time.Now()
 		pump(os.Stdin, logw, h, st, *nw, map[string]bool{"SCHEMA": true})
+		for _, f := range atExit {
+			f()
+		}
 		sum := &Summary{Property: id, Mode: mode, Counters: st.Counters, Known: st.Known, Samples: st.Samples,
 			Mismatches: st.Mismatches, NMismatch: st.nMismatch, Notes: st.Notes, WallS: time.Since(t0).Seconds()}
 		normalize(sum)
@@ -310,6 +313,8 @@ func main() {
 }
 
 var recorders = map[string]func(args []string) int{}
+
+var atExit []func()
 
 func normalize(sum *Summary) {
 	if sum.Samples == nil {
